@@ -146,6 +146,21 @@ PROPS = {
         note='Assumes the dependency contract for indexmap (incl. entry/or_default) and the hand-off contracts of the inline map; scrape (iterator loop) and clean (retain closure) are not in the Verus unit.',
         not_reached=['TorrentMap::handle_scrape_request (iterator adapters, BTreeMap)', 'TorrentMap::clean (retain closure)'],
     ),
+    'C08': dict(
+        verus=['ws_swarm'], kani=[], level='proof',
+        technique='Verus contracts (one-step refinement + ownership guard) on the real ws TorrentMap / TorrentData functions; indexmap entries as transparent structs holding the map borrow',
+        claim='For all states and announces: an announce naming a peer id stored by another connection (socket worker id + slot key) changes nothing and produces no message; every other announce follows the reference transition (stopped removes, left = 0 seeder, owner fixed at creation), gets exactly one reply, last, to the sender, with counts of the updated table; closing removes exactly the named entry; other torrents untouched.',
+        note='handle_offers is a hand-off contract (closure + zip loop); scrape and clean are not in the Verus unit; which entries a closing connection names is decided in async socket code (not reached).',
+        not_reached=['TorrentMap::handle_scrape_request (iterator loop, hashbrown)', 'TorrentMap::clean / TorrentData::clean_and_get_num_peers (retain closures)',
+                     'ConnectionReader / ConnectionCleanupData (async): announced_info_hashes bookkeeping'],
+    ),
+    'C09': dict(
+        verus=['ws_swarm'], kani=[], level='proof',
+        technique='Verus contract on the real TorrentData::handle_answer (all table sizes): forwarded iff the addressed peer is stored and holds a matching unused expectation, which is then consumed',
+        claim='An answer is forwarded - to the offering peer\'s own connection - exactly when that peer is stored and an expectation (answerer, offer id) is recorded for it, and the expectation is removed; otherwise an error goes to the answerer (peer stored) or nothing happens (peer not stored).',
+        note='handle_offers (offer fan-out, recording of expectations) is outside Verus\' subset: assumed hand-off contract, not proved here; expiry of expectations is C10.',
+        not_reached=['TorrentData::handle_offers (closure + zip loop): recipients, count min(offers, max_offers, others)', 'extract_response_peers (ws)'],
+    ),
     'C11': dict(
         verus=['udp_handler'], kani=[], level='proof',
         technique='Verus contracts: AccessList::allows against its specification; permission precondition list_allows on the swarm entry points of both UDP back ends',
